@@ -13,6 +13,7 @@ DOC = {
                    'translator can emit begins with a character in the scanner\'s stop set, and ordinary characters are escaped (R3); case folding is applied to the prefix '
                    'iff it is applied to the candidate (R4).',
     'rules': {
+        'C16.R15': 'a malformed pattern is reported, not a panic: both compilations in Pattern::regex_with (anchored `^re$` and prefix `^re`) have their error matched - the second one is the only one that notices a backslash at the end of the expression',
         'C16.R14': 'when the partial match is decided by an automaton (regex-automata lazy DFA): it is built in Regex::new from the same expression and with the same options (case, dot-matches-newline) as the regex that decides the full match; it is started anchored; the bytes of the candidate are fed from its beginning, in order (stopping early is allowed, skipping is not); `false` is returned only from the dead state (no continuation can match) and every undecidable situation - no automaton, cache error, quit state - answers `true`',
         'C16.R1': 'regex.rs: Chars::take(n) never receives a byte length; no string is sliced by a character count',
         'C16.R2': 'get_fixed_prefix: the escape flag set on a backslash is cleared when the next character is consumed',
@@ -59,6 +60,7 @@ def run(ctx):
     if not auto:
         r12(ctx, lib)
     r13(ctx, lib)
+    r15(ctx, lib)
     if ctx.tier == 'thorough' and not getattr(ctx, 'sibling', None):
         from .. import sweep
         sweep.units(ctx, 'C16.R1')
@@ -218,6 +220,23 @@ def r14(ctx, lib):
                   'the tested state is the successor state', 'the dead-state test is not applied to the state reached by next_state')
 
 
+def r15(ctx, lib):
+    """A malformed expression is an error message, never a panic: every compilation of user-supplied text in regex_with has its Err matched."""
+    rule = 'C16.R15'
+    b = ctx.need_body(rule, 'pattern::Pattern::regex_with')
+    if b is None:
+        return
+    from .common import err_handling
+    comp = b.calls(r'^regex::Regex::new$')
+    if not ctx.floor(rule, 'compilations in Pattern::regex_with', len(comp), 2, b.where()):
+        return
+    for i, c in enumerate(comp):
+        cat, det = err_handling(b, c)
+        ctx.check(cat not in ('PANICS', 'DISCARDED'), rule, '%s|compilation-%d-checked' % (b.path, i), c.where(), 'the result of this compilation is examined (%s)' % cat,
+                  'the result of this compilation of the user\'s expression is unwrapped: `^<re>$` and `^<re>` are compiled, only the first is checked - but a backslash at the end of <re> escapes the '
+                  'appended `$`, so `^a\\$` compiles and `^a\\` does not: `--regex --name "a\\"` panics (exit 101) instead of reporting an invalid pattern')
+
+
 def r3(ctx, lib, auto=False):
     rule = 'C16.R3'
     g = ctx.need_body(rule, 'pattern::Pattern::glob_to_regex')
@@ -349,9 +368,39 @@ def r6(ctx, lib):
         ctx.missing(rule, 'Pattern construction in regex_with', b.where())
         return
     from ..analysis import agg_field
+    def origin_call(op, hops=12):
+        # follow moves field-sensitively: `(_t.1 as Ok).0` of a tuple leads to the 2nd operand of the tuple aggregate, not to both
+        want_idx = []
+        cur = op
+        for _ in range(hops):
+            pl = (cur.get('m') or cur.get('c')) if isinstance(cur, dict) else None
+            if pl is None:
+                return None
+            l, proj = pl[0], pl[1]
+            fidx = [int(e[2]) for e in proj if isinstance(e, list) and e[0] == 'F' and str(e[2]).isdigit()]
+            # the first numeric field on a tuple local selects the element; a trailing `.0` after a downcast is the payload of Ok/Some
+            defs = [(bi, st) for bi, blk in enumerate(b.blocks) for st in blk['stmts'] if st['p'][0] == l and not st['p'][1]]
+            calls = [c for c in b.calls() if c.dest and c.dest[0] == l and not c.dest[1]]
+            if calls:
+                return calls[0]
+            if not defs:
+                return None
+            st = defs[-1][1]
+            rv = st['rv']
+            if rv['k'] == 'agg' and rv.get('ak') == 'tuple':
+                if not fidx:
+                    return None
+                cur = rv['ops'][fidx[0]]
+                continue
+            if rv['k'] == 'use':
+                cur = rv['op']
+                continue
+            return None
+        return None
     for field, want in (('anchored_regex', ['"^"', '"$"']), ('prefix_regex', ['"^"'])):
         sl = backslice(b, [agg_field(ag[0], field)])
-        src = [c for c in sl.calls if c.matches(r'regex::Regex::new$')]
+        oc = origin_call(agg_field(ag[0], field))
+        src = [oc] if oc is not None and oc.matches(r'regex::Regex::new$') else [c for c in sl.calls if c.matches(r'regex::Regex::new$')]
         vals = []
         if src:
             vals = [v for v in cvals(lib, b, src[0].args[0]) if v in ('"^"', '"$"')]
